@@ -51,6 +51,9 @@ type Analyzer struct {
 	// PreserveFields: an opaque call does not modify the fields of the objects
 	// the current function received (stated as an assumption by the rule).
 	PreserveFields func(call ssa.CallInstruction) bool
+	// CapIsLen: for this cap(x) call the rule has established len(x) == cap(x)
+	// (allocated by make([]T, n) and only ever stored whole).
+	CapIsLen func(call ssa.CallInstruction) bool
 	// NonNilResult reports that the (single, interface-typed) result of the
 	// call is never nil, as established by another analysis (error shapes).
 	NonNilResult func(call *ssa.Call) bool
@@ -713,6 +716,14 @@ func (a *Analyzer) assume(ctx int, cond ssa.Value, truth bool, s *State) {
 	case *ssa.UnOp:
 		if c.Op == token.NOT {
 			a.assume(ctx, c.X, !truth, s)
+		}
+		if c.Op == token.MUL {
+			// a Boolean memory cell that was just tested holds that value on
+			// this branch (until it is stored to or havocked)
+			if p, ok := a.val(s, ctx, c.X).(APtr); ok {
+				t := truth
+				s.cells[p.cell] = ABool{konst: &t}
+			}
 		}
 	case *ssa.BinOp:
 		a.assumeBin(ctx, c, truth, s)
